@@ -237,8 +237,9 @@ def block(i, g):
 
 def single(g):
     decl, ty, kexpr, oexpr, nt, desc = g
-    full = "#![allow(unused)]\n%s\npub const K: %s = %s;\n" % (decl, ty, kexpr)
-    twin = "#![allow(unused)]\n%s\npub fn o() { let _o = %s; }\n" % (decl, oexpr)
+    # the caller's items sit in a block, as in the batched program (a caller module `core` must not meet the crate-level one)
+    full = "#![allow(unused)]\npub fn k() { %s const K: %s = %s; }\n" % (decl, ty, kexpr)
+    twin = "#![allow(unused)]\npub fn o() { %s let _o = %s; }\n" % (decl, oexpr)
     return full, twin
 
 
